@@ -66,6 +66,12 @@ CLAIMED["C20"] = dict(
    note="Trusted: sync.Mutex/Cond/context models, ghost 'linked' marking via the guard ghost field set at linking time; int as mathematical integer.",
    technique="contract-based deductive verification with lock invariants over all ever-linked nodes and interference havoc at every lock acquisition")
 
+CLAIMED["C15"] = dict(
+   text="Function wrappers, one contract per wrapper closure with the wrapped function as an unknown function value (ghost calls(f) counts its executions; it may return anything and, where stated, panic): Once (Worker, Operation, Processor, Producer, Handler, ft.Once): the wrapped function is called only inside sync.Once.Do, exactly once there; a caller that finds the once done neither calls it nor writes the cached result, and returns the cached cell. Lock/WithLock (Worker, Operation, Processor, Producer, Handler): exactly one call per invocation, made while the mutex is held, mutex released on normal and panicking exit (executions never overlap). Limit (limitExec, shared by Worker/Processor/Producer/Future.Limit): counter monotone, never above n, written only under the mutex; a call executes op iff the counter it observes at its decision point is below n and then bumps it by one (so min(n, calls) executions), op runs under the mutex, the cached result is written only while the counter is below n (final once the fast path is open); Operation.Limit: the CAS loop grants exactly the transitions k<n -> k+1. Retry (Worker, Producer): at most n attempts, a non-nil result implies an attempt was made. PreHook/PostHook (Worker): hook and worker each run exactly once, in the documented order; Operation.PostHook: hook runs exactly once on normal and panicking exit. Waiters: WaitChannel returns only after a receive on the channel became possible or its context is done; Operation.Launch returns exactly such a waiter on the signal channel created by the call; Operation.Signal's goroutine closes the signal channel only after the operation has been called, also when it panics. Not under contract: Join/merge (generic ft.Wrapper instantiation outside the engine's subset), adt.Once / Mnemonize / ft.OnceDo (adt.Atomic model missing), Worker.Signal/Launch/WorkerFuture/StartGroup/Background (channel send pipelines), TTL, Future wrappers.",
+   ref="DESIGN.md 7/C15",
+   note="Trusted: sync.Once (one execution over all goroutines; every Do returns after it completed), sync.Mutex exclusion, sync/atomic sequential consistency with the declared rely (guaranteed in turn by the function's own writes), blocking select semantics. 'Exactly once over all goroutines' and 'never two executions at once' follow from these trusted primitives plus the proved per-call obligations.",
+   technique="contract-based deductive verification of each wrapper closure with ghost call counters, a sync.Once model, atomics with rely/guarantee, call-order and under-lock obligations")
+
 NOT_APPLICABLE = {
  "C01": "exactly-once delivery across an unbounded set of goroutines and channels is a whole-execution property; no per-function contract within reach of the generator states it (DESIGN 7/C01)",
  "C04": "liveness (every goroutine eventually exits, a blocked consumer returns promptly): contracts give partial correctness only (DESIGN 7/C04)",
